@@ -580,6 +580,17 @@ def r119_views(ctx, rule='R1.19'):
                    '`%s` then `views[...] = %s`: the constructor may copy its input (it does, by default, in current pandas); '
                    'what the readers write into %s then never reaches the index' % (norm(st)[:70], arr, arr), m.loc(st))
     ctx.floor(rule, 'index constructions whose input is registered as a view', n, 2)
+    # a registered view keeps the row dimension: dropping "every dimension of length one" also drops the row dimension
+    # of a one-row allocation, and the readers then cannot index the view
+    k = 0
+    for c in ast.walk(f):
+        if isinstance(c, ast.Call) and isinstance(c.func, ast.Attribute) and c.func.attr == 'squeeze':
+            k += 1
+            ctx.ob(rule, 'dataframe.empty:squeeze-names-the-dimension-it-drops:%s' % norm(c.func.value)[:30],
+                   bool(c.args) or any(kw.arg == 'axis' for kw in c.keywords),
+                   '`%s` removes every axis of length one; for an allocation of exactly one row that includes the row axis '
+                   '(0-dimensional view, IndexError when a one-row row group is read)' % norm(c)[:50], m.loc(c))
+    ctx.note('%s: squeeze calls in dataframe.empty: %d' % (rule, k))
 
 
 def r121(ctx, rule='R1.21'):
